@@ -38,6 +38,11 @@ var srs = []srDef{
 	{"krovak/s_jtsk", "+proj=krovak +datum=s_jtsk", [][2]float64{{-800000, -1050000}, {-500000, -1100000}}},
 	{"utm33/GRS80", "+proj=utm +zone=33 +ellps=GRS80 +towgs84=0,0,0", [][2]float64{{500000, 5761038}, {414639.5, 4428236.1}}},
 	{"utm32/WGS84", "+proj=utm +zone=32 +datum=WGS84", [][2]float64{{500000, 5761038}, {614639.5, 4428236.1}}},
+	// pairs that differ only by an omitted parameter (the projection factories fill in defaults on first use)
+	{"merc/lon_0=10", "+proj=merc +lon_0=10 +datum=WGS84", [][2]float64{{400000, 6800000}, {-1200000, 5000000}}},
+	{"merc/lon_0-omitted", "+proj=merc +datum=WGS84", [][2]float64{{400000, 6800000}, {-1200000, 5000000}}},
+	{"tmerc/x_0=500000", "+proj=tmerc +lon_0=9 +k=0.9996 +x_0=500000 +datum=WGS84", [][2]float64{{500000, 5761038}, {414639.5, 4428236.1}}},
+	{"tmerc/x_0-omitted", "+proj=tmerc +lon_0=9 +k=0.9996 +datum=WGS84", [][2]float64{{0, 5761038}, {-85360.5, 4428236.1}}},
 }
 
 func try(f func()) (p string) {
@@ -68,7 +73,8 @@ func (a val) same(b val) bool {
 		return true
 	}
 	eq := func(p, q float64) bool {
-		return p == q || math.Abs(p-q) <= 1e-9*math.Max(1, math.Abs(q)) || (math.IsNaN(p) && math.IsNaN(q))
+		// a transformer is a pure function of its input: bit-identical results are demanded
+		return p == q || (math.IsNaN(p) && math.IsNaN(q))
 	}
 	return eq(a.x, b.x) && eq(a.y, b.y)
 }
@@ -148,17 +154,18 @@ func main() {
 		return
 	}
 	rep := report.New("C10", tier, "model_checking")
-	rep.Rule = "E2 (stateless, no dedup: closure-captured state cannot be fingerprinted): ALL sequences of up to 4 (thorough 5) operations Build(i,j) / Call(slot, point) over two sets of 5 (6) spatial references parsed once per sequence (set A: 7-parameter tmerc/OSGB36, 3-parameter lcc/potsdam, the registered EPSG:4326 (and EPSG:3857), long/lat with +axis=neu and with +axis=wsu on a 7-parameter datum; set B: three UTM references of which two share a zone on different ellipsoids/datums, EPSG:4326, krovak), two points per reference; every call must return what a freshly built transformer from freshly parsed definitions returns when called once; the reference values are recomputed after the sweep to detect changes of the registered globals. E1: structure trees of all eight types x transformers {nil, affine, fail on the k-th call for every k <= Len}: same type and nesting (*Bounds -> 4-vertex polygon), i-th vertex = t(i-th vertex), input unchanged, error returned, no panic. Non-trivial = sequences that call some transformer at least twice or interleave two transformers."
+	rep.Rule = "E2 (stateless, no dedup: closure-captured state cannot be fingerprinted): ALL sequences of up to 4 (thorough 5) operations Build(i,j) / Call(slot, point) over two sets of 5 (6) spatial references parsed once per sequence (set A: 7-parameter tmerc/OSGB36, 3-parameter lcc/potsdam, the registered EPSG:4326 (and EPSG:3857), long/lat with +axis=neu and with +axis=wsu on a 7-parameter datum; set B: three UTM references of which two share a zone on different ellipsoids/datums, EPSG:4326, krovak; set C: Mercator and transverse Mercator pairs that differ only by an omitted +lon_0 / +x_0, EPSG:4326); results must be bit-identical, two points per reference; every call must return what a freshly built transformer from freshly parsed definitions returns when called once; the reference values are recomputed after the sweep to detect changes of the registered globals. E1: structure trees of all eight types x transformers {nil, affine, fail on the k-th call for every k <= Len}: same type and nesting (*Bounds -> 4-vertex polygon), i-th vertex = t(i-th vertex), input unchanged, error returned, no panic. Non-trivial = sequences that call some transformer at least twice or interleave two transformers."
 	// (set, depth) pairs: every sequence up to the depth is enumerated over each set
 	type plan struct {
 		use   []int
 		depth int
 	}
-	plans := []plan{{[]int{0, 1, 2, 4, 5}, 4}, {[]int{6, 8, 9, 2, 7}, 4}}
+	plans := []plan{{[]int{0, 1, 2, 4, 5}, 4}, {[]int{6, 8, 9, 2, 7}, 4}, {[]int{10, 11, 12, 13, 2}, 4}}
 	if tier == "thorough" {
 		plans = []plan{
 			{[]int{0, 1, 2, 3, 4, 5}, 4}, {[]int{6, 8, 9, 2, 7, 3}, 4},
-			{[]int{0, 1, 2, 5}, 5}, {[]int{6, 8, 9, 2}, 5}, {[]int{0, 6, 3, 4}, 5}, {[]int{1, 7, 8, 5}, 5},
+			{[]int{10, 11, 12, 13, 2, 3}, 4},
+			{[]int{0, 1, 2, 5}, 5}, {[]int{6, 8, 9, 2}, 5}, {[]int{0, 6, 3, 4}, 5}, {[]int{1, 7, 8, 5}, 5}, {[]int{10, 11, 12, 13}, 5},
 		}
 	}
 	ref := map[[3]int]val{}
